@@ -328,7 +328,7 @@ def gen_multi_lf(rng, naming=None, n_lf=None, vrl=None):
         p = apimodel.from_spec(spec, write=False)
         head = dict(p[1])
         head['fh_id'] = specgen.r_str('LF-%d' % li)
-        head['fh_seq'] = specgen.r_int(li + 1)
+        head['fh_seq'] = specgen.r_int(rng.choice([li + 1, n_lf - li, n_lf - li, 1, 7, 9999999999 - li]))     # not monotonic: creation order is what counts
         ops = shift_refs(p[2:], off)
         n_created = sum(1 for s in ops if s['op'] in ('origin', 'add', 'channel', 'frame'))
         for s in ops:
